@@ -25,7 +25,7 @@ Expand(p, w, i) == IF i > Len(p) THEN <<>>
 
 \* In a combined diff the prefix columns are always shown; inside a conflict region they are removed (a
 \* kept marker is then the comparison's own '-' or '+').
-ShowsPre(line, cfg) == line.c \in BodyC /\ (cfg.keep \/ line.comb)
+ShowsPre(line, cfg) == HunkC(line.c) \in BodyC /\ (cfg.keep \/ line.comb)
 WantVisLen(line, cfg) == (IF ShowsPre(line, cfg) THEN Len(line.pre) ELSE IF line.c = "cin" /\ cfg.keep THEN 1 ELSE 0) + Len(line.pay)
 WantVis(line, cfg) == (IF ShowsPre(line, cfg) THEN line.pre ELSE <<>>) \o Expand(line.pay, cfg.tabs, 1)
 WantVisAs(line, cfg, tag) ==
@@ -33,7 +33,7 @@ WantVisAs(line, cfg, tag) ==
   ELSE WantVis(line, cfg)
 
 \* The implementation-shaped model, run on the same history (drift report, never a verdict)
-IS(b) == INSTANCE Impl_Stream WITH Buf <- b, Fixes <- {"D1", "D14", "D2"}
+IS(b) == INSTANCE Impl_Stream WITH Buf <- b, Fixes <- {"D1", "D14", "D2", "D18"}
 RECURSIVE ImplRun(_, _, _, _)
 ImplRun(b, h, st, k) == IF k > Len(h) THEN st ELSE ImplRun(b, h, IS(b)!Step(st, k, h[k]), k + 1)
 ImplRows(e) == IS(e.cfg.buf)!Finish(ImplRun(e.cfg.buf, e.lines, IS(e.cfg.buf)!InitS, 1)).w
@@ -41,13 +41,13 @@ BlankSource(e, r) == LET ln == e.lines[r.k] IN
                        r.t \in BodyC \cup {"raw"} /\ WantVisLen(ln, e.cfg) = 0
 
 \* the files a header must name, in order, from the descriptor <<old, new, label, mode, bin>>
-WantFiles(d) == IF d[1] = d[2] THEN <<d[1]>> ELSE IF d[2] = 0 THEN <<d[1]>> ELSE IF d[1] = 0 THEN <<d[2]>>
+WantFiles(d) == IF d[3] = "comparing" THEN <<d[1], d[2]>> ELSE IF d[1] = d[2] THEN <<d[1]>> ELSE IF d[2] = 0 THEN <<d[1]>> ELSE IF d[1] = 0 THEN <<d[2]>>
                 ELSE <<d[1], d[2]>>
 
 \* the file a hunk header names: the section's new path, or the old one for a deleted file
 RECURSIVE SecStart(_, _)
-SecStart(h, k) == IF k = 0 \/ h[k].c = "diff" THEN k ELSE SecStart(h, k - 1)
-HunkFile(h, k) == LET d == WantHeader(h[SecStart(h, k)]) IN IF d[2] = 0 THEN d[1] ELSE d[2]
+SecStart(h, k) == IF k = 0 \/ IsStart(h[k]) THEN k ELSE SecStart(h, k - 1)
+HunkFile(h, k) == LET d == WantHeaderAt(h, SecStart(h, k)) IN IF d[2] = 0 THEN d[1] ELSE d[2]
 
 \* does observed row g satisfy what is wanted (w: a Row of Obs_Stream) for history h?
 RowMatches(h, cfg, w, g) ==
@@ -62,13 +62,14 @@ RowMatches(h, cfg, w, g) ==
     [] w.t = "mergeHdr" -> g.t = "mergeHdr"
     [] w.t = "hunkHdr" -> /\ g.t = "hunkHdr" /\ g.frag = w.k
                           /\ cfg.hhFile => g.fp = <<HunkFile(h, w.k)>>   \* C05/C14: the hunk's own file
+    [] w.t = "fileHdrOpt" -> g.t = "fileHdr"
     [] w.t = "fileHdr" -> /\ g.t = "fileHdr"
                           /\ w.d # <<>> => /\ g.fp = WantFiles(w.d)
-                                           /\ g.lab = w.d[3]
+                                           /\ g.lab = (IF w.d[3] = "comparing" THEN "modified" ELSE w.d[3])
                                            /\ g.mode = (w.d[4] = 2)
                                            /\ g.bin = w.d[5]
 
-IsHeader(w) == w.t \in {"fileHdr", "hunkHdr", "commit", "mergeHdr", "bar"}
+IsHeader(w) == w.t \in {"fileHdr", "fileHdrOpt", "hunkHdr", "commit", "mergeHdr", "bar"}
 Skippable(g) == g.t \in {"blank", "deco"}
 
 \* Walk wanted rows (index i) and observed rows (index j).  Decoration rows are allowed only
@@ -80,11 +81,11 @@ Match(h, cfg, want, got, i, j) ==
      ELSE IF Skippable(got[j]) /\ i > 1 /\ IsHeader(want[i - 1]) THEN Match(h, cfg, want, got, i, j + 1)
      ELSE <<i, j>>
   ELSE IF j > Len(got) THEN
-     IF want[i].t = "rawopt" THEN Match(h, cfg, want, got, i + 1, j) ELSE <<i, j>>
+     IF Optional(want[i]) THEN Match(h, cfg, want, got, i + 1, j) ELSE <<i, j>>
   ELSE IF RowMatches(h, cfg, want[i], got[j]) THEN Match(h, cfg, want, got, i + 1, j + 1)
-  ELSE IF want[i].t = "rawopt" THEN Match(h, cfg, want, got, i + 1, j)
   ELSE IF Skippable(got[j]) /\ (IsHeader(want[i]) \/ (i > 1 /\ IsHeader(want[i - 1])))
        THEN Match(h, cfg, want, got, i, j + 1)
+  ELSE IF Optional(want[i]) THEN Match(h, cfg, want, got, i + 1, j)
   ELSE <<i, j>>
 
 Judge(e) ==
